@@ -13,12 +13,13 @@ CHECK = dict(
     ],
     units=[
         dict(name="cmd", dir=D + "cmd", src="C20/cmd", runs=[
-            dict(name="singles", run="^TestVerifC20Singles$", quick=0, thorough=0, shards_quick=2, shards_thorough=2),
+            dict(name="singles", run="^TestVerifC20Singles$", quick=0, thorough=0, shards_quick=3, shards_thorough=3),
             dict(name="switches", run="^TestVerifC20Switches$", quick=0, thorough=0, shards_quick=2, shards_thorough=2),
             dict(name="thresholds", run="^TestVerifC20Thresholds$", quick=0, thorough=0, shards_quick=2, shards_thorough=2),
             dict(name="disabled", run="^TestVerifC20DisabledSections$", quick=0, thorough=0, shards_quick=3, shards_thorough=3),
             dict(name="validpairs", run="^TestVerifC20ValidPairs$", quick=0, thorough=0, shards_quick=6, shards_thorough=6),
             dict(name="backendusage", run="^TestVerifC20BackendUsage$", quick=0, thorough=0),
+            dict(name="refreshintervals", run="^TestVerifC20RefreshIntervals$", quick=0, thorough=0),
             dict(name="protocolsets", run="^TestVerifC20ProtocolSets$", quick=0, thorough=0),
             dict(name="mutate", run="^TestVerifC20Mutate$", quick=4000, thorough=200000, shards_quick=2, shards_thorough=8),
         ]),
